@@ -1,7 +1,71 @@
 import Mutagen.Driver.Util
+import Mutagen.Model.Housekeeping
 namespace Mutagen.Driver.C43
+open Mutagen.Driver Mutagen.Model.Housekeeping
 
-/-- Model-side handler for one line of the C43 correspondence stream. -/
-def handle (_line : String) : String := "unimplemented"
+/-!
+Line: `<mode> <now> <agents> <caches> <staging>`
+
+* mode `n` normal, `s` sidecar environment (`MUTAGEN_SIDECAR=1`), `r` relative
+  and `e` empty `MUTAGEN_DATA_DIRECTORY` (then nothing can be listed);
+* `<now>`: the nominal `time.Now()` in ns (times below are ages: `T = now - age`);
+* a sub-directory is `!` (missing) or `=` followed by comma-separated children
+  `name/link/kind/extra/aAge/mAge/agent/agentAAge/agentMAge`:
+  `link` 1 = the child is a symbolic link to an object outside the data
+  directory; `kind` `f` file, `d` directory, `x` nothing (dangling link);
+  `extra` 1 = the directory has other content; `agent` 0 = no `mutagen-agent`
+  inside, 1 = regular file, 2 = symbolic link to an outside file; the ages are
+  those of the object `os.Stat` resolves to.
+
+Output: the surviving names per sub-directory, sorted:
+`agents=a,b|caches=-|staging=!`.
+-/
+
+def parseChild (now : Int) (s : String) : Option Child :=
+  match s.splitOn "/" with
+  | [name, link, kind, extra, aAge, mAge, agent, gA, gM] => do
+    let aAge ← aAge.toInt?
+    let mAge ← mAge.toInt?
+    let gA ← gA.toInt?
+    let gM ← gM.toInt?
+    let isLink := link == "1"
+    let hasAgent := kind == "d" && agent != "0"
+    pure {
+      name := name
+      isLink := isLink
+      stat := if kind == "x" then none else some { atime := now - aAge, mtime := now - mAge }
+      agentStat := if hasAgent then some { atime := now - gA, mtime := now - gM } else none
+      removable := isLink || kind != "d" || !(extra == "1" || hasAgent) }
+  | _ => none
+
+def parseSub (now : Int) (s : String) : Option (Option (List Child)) :=
+  match s.toList with
+  | ['!'] => some none
+  | ['='] => some (some [])
+  | '=' :: rest => ((String.ofList rest).splitOn ",").mapM (parseChild now) |>.map some
+  | _ => none
+
+def showNames (cs : Option (List Child)) : String :=
+  match cs with
+  | none => "!"
+  | some [] => "-"
+  | some cs => ",".intercalate ((cs.map (·.name)).toArray.qsort (· < ·)).toList
+
+def handle (line : String) : String :=
+  match fields line with
+  | [mode, now, a, c, s] =>
+    match now.toInt? with
+    | none => "bad-op"
+    | some now =>
+      match parseSub now a, parseSub now c, parseSub now s with
+      | some a, some c, some s =>
+        let listed : DataDir := { agents := a, caches := c, staging := s }
+        -- with an invalid data-directory setting nothing can be listed
+        let seen : DataDir := if mode == "r" || mode == "e" then { agents := none, caches := none, staging := none } else listed
+        let rs := housekeep (mode == "s") now seen
+        let out (sub : Sub) := showNames ((listed.listing sub).map (survivors rs sub))
+        s!"agents={out .agents}|caches={out .caches}|staging={out .staging}"
+      | _, _, _ => "bad-op"
+  | _ => "bad-op"
 
 end Mutagen.Driver.C43
